@@ -125,6 +125,8 @@ Definition ecase_check (c : ecase) : bool :=
       match xparse_narsese (fmt_of f) input with
       | PErr st =>
           let '(l, r) := err_window (s_len _ st) (s_head _ st) in
+          (* env[l..r] of the real code panics unless l <= r <= len: the window must be a genuine slice *)
+          Nat.leb l r && Nat.leb r (length input) &&
           N.eqb (N.of_nat (s_head _ st)) index && str_eqb (take (r - l) (drop l input)) window
       | _ => false
       end
